@@ -20,7 +20,7 @@ def sig_leaf(alpha, c, poly=False):
     return {'k': 'sig', 'poly': poly, 'n': n, 'alpha': [[frac_str(F(x)) for x in r] for r in alpha], 'c': [frac_str(F(x)) for x in c]}
 
 
-def gen_sig(rng, n=None, m=None, bounded=True):
+def gen_sig(rng, n=None, m=None, bounded=True, near=False):
     """a small signomial; with `bounded` the negative terms lie inside the convex hull of positive ones (so that SAGE bounds are
     finite often enough for the audits)"""
     n = n or rng.randint(1, 2)
@@ -38,6 +38,12 @@ def gen_sig(rng, n=None, m=None, bounded=True):
         if tuple(r) not in seen:
             seen.add(tuple(r))
             rows.append(r)
+    if near and len(rows) >= 2 and rng.random() < 0.25:
+        # an exponent that differs from another one only in the 6th decimal: distinct after the 7-decimal rounding
+        base = list(rows[rng.randrange(len(rows))])
+        base[rng.randrange(n)] += F(5, 10 ** 6)
+        if tuple(base) not in seen:
+            rows.append(base)
     c = []
     for i, r in enumerate(rows):
         if i < len(corners):
@@ -49,7 +55,10 @@ def gen_sig(rng, n=None, m=None, bounded=True):
     return sig_leaf(rows, c)
 
 
-def gen_box(rng, n):
+def gen_box(rng, n, eq=False):
+    if eq and n == 2 and rng.random() < 0.3:
+        lo = F(rng.randint(-2, 0))
+        return {'eqbox': [frac_str(lo), frac_str(lo + rng.randint(1, 3))]}
     lo = [F(rng.randint(-2, 0)) for _ in range(n)]
     hi = [l + rng.randint(1, 3) for l in lo]
     return {'lo': [frac_str(x) for x in lo], 'hi': [frac_str(x) for x in hi]}
@@ -64,6 +73,11 @@ def build_sig_domain(n, box):
         return None
     x = cl.Variable(shape=(n,), name='relax_box_x_%d' % build_sig_domain.k)
     build_sig_domain.k += 1
+    if 'eqbox' in box:
+        # {x0 + x1 == 0, lo <= x0 <= hi}, the EQUALITY listed first
+        lo, hi = float(F(box['eqbox'][0])), float(F(box['eqbox'][1]))
+        return SigDomain(n, coniclifts_cons=[x[0] + x[1] == 0, x[0] >= lo, x[0] <= hi],
+                         gts=[lambda z: z[0] - lo, lambda z: hi - z[0]], eqs=[lambda z: z[0] + z[1]])
     if 'lin' in box:
         rows = [(np.array([float(F(v)) for v in a]), float(F(b))) for a, b in box['lin']]
         return SigDomain(n, coniclifts_cons=[(a @ x) <= b for a, b in rows],
@@ -81,6 +95,13 @@ build_sig_domain.k = 0
 def box_points(rng, n, box, count):
     if box is None:
         return [[rng.randint(-6, 6) / 4.0 for _ in range(n)] for _ in range(count)]
+    if 'eqbox' in box:
+        lo, hi = float(F(box['eqbox'][0])), float(F(box['eqbox'][1]))
+        out = []
+        for _ in range(count):
+            x0 = lo + (hi - lo) * rng.randint(0, 8) / 8.0
+            out.append([x0, -x0] + [0.0] * (n - 2))
+        return out
     lo = [float(F(x)) for x in box['lo']]
     hi = [float(F(x)) for x in box['hi']]
     pts = [[lo[i] + (hi[i] - lo[i]) * rng.randint(0, 8) / 8.0 for i in range(n)] for _ in range(count)]
@@ -116,11 +137,19 @@ def sort_rows(alpha, *cols):
     return [alpha[i] for i in keyed], [[col[i] for i in keyed] for col in cols]
 
 
+def mat_json7(alpha):
+    """exponent rows as exact rationals on the 10^-7 grid (what the constructor's np.round(., 7) means)"""
+    out = []
+    for row in np.asarray(alpha, dtype=float).tolist():
+        out.append([frac_str(F(round(F(float(v)) * 10 ** 7), 10 ** 7)) for v in row])
+    return out
+
+
 def extract_primal(prob):
     con = prob.constraints[0]
     gamma = [v for v in prob.all_variables if v.name == 'gamma'][0]
     id2k = {gamma.scalar_variable_ids[0]: 0}
-    alpha = st.mat_json(con.alpha)
+    alpha = mat_json7(con.alpha)
     c = [lin_cell(se, id2k) for se in con.c.flat]
     alpha, (c,) = sort_rows(alpha, c)
     return {'alpha': alpha, 'c': c}
@@ -131,7 +160,7 @@ def extract_dual(prob):
     v = con.v
     vids = [int(i) for i in v.scalar_variable_ids]
     id2pos = {sid: k for k, sid in enumerate(vids)}
-    alpha = st.mat_json(con.alpha)
+    alpha = mat_json7(con.alpha)
     gammas = {}
     cells = []
     from sageopt.coniclifts.base import ScalarExpression
